@@ -1,6 +1,7 @@
 """C19: operation mode / export limit / depth-of-discharge round trips, judged by TraceModes.tla."""
 from __future__ import annotations
 
+import itertools
 import os
 import random
 import sys
@@ -96,6 +97,15 @@ def mode_program(variant, prior: str, prior_hex: str, mode: int, power: int, soc
                      "soc": soc, "fmt": variant[6]}}
 
 
+def seq_program(variant, seq: list[tuple[int, int, int]], prior: str, prior_hex: str) -> dict:
+    """Several set_operation_mode calls on ONE object, the mode read back after each."""
+    calls = [{"api": "read_device_info"}, {"api": "get_operation_modes", "args": [True]}]
+    for mode, p, s_ in seq:
+        calls += [{"api": "set_operation_mode", "args": [{"opmode": mode}, p, s_]}, {"api": "get_operation_mode"}]
+    return {"inv": [inv_spec(variant, prior_hex)], "calls": calls,
+            "case": {"variant": variant[0], "prior": prior, "seq": [list(x) for x in seq], "fmt": variant[6]}}
+
+
 def limit_program(variant, what: str, value: int) -> dict:
     setter, getter = ("set_grid_export_limit", "get_grid_export_limit") if what == "export" else \
         ("set_ongrid_battery_dod", "get_ongrid_battery_dod")
@@ -122,6 +132,21 @@ def run_mode_program(prog: dict) -> dict:
     rets = [ev for ev in tr["ev"] if ev["e"] == "RET"]
     c = dict(prog["case"])
     c["_oplog"] = tr.get("oplog", [])
+    if "seq" in c:
+        # one record per step; the content of the first group before a step follows from the step before it
+        modes = rets[1].get("val", {}).get("v", []) if rets[1].get("ok") else []
+        steps = []
+        prior = c["prior"]
+        for k, (mode, p, s_) in enumerate(c["seq"]):
+            rs, rg = rets[2 + 2 * k], rets[3 + 2 * k]
+            v = rg.get("val") or {}
+            steps.append({"kind": "seqstep", "variant": c["variant"], "fmt": c["fmt"], "prior": prior, "mode": mode, "step": k + 1,
+                          "seq": [x[0] for x in c["seq"]], "offered": mode in modes, "setok": bool(rs.get("ok")),
+                          "getok": bool(rg.get("ok")), "getexc": rg.get("exc", ""),
+                          "got": v["v"] if rg.get("ok") and v.get("k") == "enum" else -1})
+            if rs.get("ok") and mode in (98, 99):
+                prior = ("charge247" if mode == 98 else "discharge247") + ("_745" if "745" in c["variant"] and mode == 98 else "")
+        return {"kind": "seq", "steps": steps, "status": tr["status"], "_oplog": c["_oplog"]}
     if "what" in c:
         c.update(kind="limit", setok=bool(rets[1].get("ok")), getok=bool(rets[2].get("ok")), got=-1)
         v = rets[2].get("val") or {}
@@ -171,7 +196,7 @@ def enc_cases() -> list[dict]:
     return out
 
 
-CASE_DEFAULT = {"kind": "", "fmt": "v2", "charge": False, "power": 0, "soc": 0, "bytes": [], "mode": 0, "setok": False,
+CASE_DEFAULT = {"step": 0, "kind": "", "fmt": "v2", "charge": False, "power": 0, "soc": 0, "bytes": [], "mode": 0, "setok": False,
                 "getok": False, "got": -1, "g1": ABSENT, "sw": [], "raw": [], "v2": True, "value": 0}
 
 
@@ -240,10 +265,23 @@ def check(prop: str, tier: str, seed: int) -> int:
             continue            # no battery: the DoD calls are documented as unsupported
         for d in range(0, 101, 7 if quick else 1):
             progs.append(limit_program(variant, "dod", d))
+    # sequences on one object: a, b, a for all pairs of modes (thorough: all triples), on every ET / ES variant
+    allmodes = (0, 1, 2, 3, 4, 5, 98, 99)
+    for variant in VARIANTS:
+        pri = V2_PRIORS if variant[6] == "v2" else V1_PRIORS
+        triples = [(a, b, a) for a in allmodes for b in allmodes if a != b]
+        if not quick:
+            triples = list(itertools.product(allmodes, repeat=3))
+        elif len(triples) > 30:
+            triples = rnd.sample(triples, 30) + [(a, b, a) for a in (0, 1, 2, 4, 5) for b in (98, 99)][:: 2 if variant[3] == 502 else 1]
+        for tri in dict.fromkeys(triples):
+            progs.append(seq_program(variant, [(m, 30 + 7 * k, 40 + 9 * k) for k, m in enumerate(tri)], "zeros", pri["zeros"]))
     res = engine.parallel_map("harness.checks_modes", "run_mode_program", progs, procs=16, chunk=20)
     for c in res:
         if c["status"] != "ok":
             raise engine.MachineryError("mode program did not finish")
+    res = [c for c in res if c["kind"] != "seq"] + [st for c in res if c["kind"] == "seq" for st in
+                                                    ([dict(c["steps"][0], _oplog=c["_oplog"])] + c["steps"][1:])]
     from . import checks_sim
     checks_sim.model_check(run, tier)
     checks_sim.validate_logs(run, [lg for c in res for lg in c.pop("_oplog", [])], sample=150 if quick else 3000, seed=seed)
@@ -259,8 +297,8 @@ def check(prop: str, tier: str, seed: int) -> int:
             if clause.startswith("INFO."):
                 run.cov["families"][clause] = run.cov["families"].get(clause, 0) + 1
                 continue
-            detail = {k: c[k] for k in ("variant", "prior", "others", "start", "mode", "what", "fmt") if k in c}
-            if c["kind"] == "mode":
+            detail = {k: c[k] for k in ("variant", "prior", "others", "start", "mode", "what", "fmt", "seq", "step") if k in c}
+            if c["kind"] in ("mode", "seqstep"):
                 detail["got"] = c["got"]
                 detail["getexc"] = c.get("getexc", "")
             run.violation(clause, detail, {"modecase": {k: v2 for k, v2 in c.items()}})
